@@ -460,7 +460,7 @@ func (fx *fctx) evalLval(st *State, x ast.Expr) *lval {
 			e.unsup(x, "assignment to non-variable %s", x.Name)
 		}
 		if fx.isGlobal(v) {
-			return &lval{key: "global." + v.Name(), addr: e.ts.Int(0), t: v.Type()}
+			return &lval{key: e.globalKey(v), addr: e.ts.Int(0), t: v.Type()}
 		}
 		if fx.boxed[v] {
 			cur := st.vars[v]
@@ -778,7 +778,7 @@ func (fx *fctx) lookupByName(st *State, o *types.Var) *Value { return nil }
 
 func (fx *fctx) loadGlobal(st *State, o *types.Var) *Value {
 	e := fx.e
-	v := e.loadCell(st, "global."+globalName(o), e.ts.Int(0), o.Type())
+	v := e.loadCell(st, e.globalKey(o), e.ts.Int(0), o.Type())
 	if !fx.inGlobalInv {
 		for _, gi := range e.P.CF.GlobalInvs {
 			if gi.Var == o.Name() && o.Pkg() == e.P.Pkg.Types && gi.Clause.Fn != nil {
@@ -787,6 +787,16 @@ func (fx *fctx) loadGlobal(st *State, o *types.Var) *Value {
 				fx.inGlobalInv = false
 				st.assume(g)
 			}
+		}
+	}
+	// an immutable-after-init pointer-like global initialised by an allocation is non-nil and was allocated before any
+	// function ran: it differs from everything allocated during the call
+	if e.globalsAlloc[o] && e.effects != nil && !e.effects.GlobalWritten[o] && v.Tm != nil && v.Tm.Sort == SInt {
+		st.assume(e.ts.Gt(v.Tm, e.ts.Int(0)))
+		if fx.preParamAlloc != nil {
+			st.assume(e.ts.Lt(v.Tm, fx.preParamAlloc))
+		} else if fx.entry != nil && fx.entry.alloc != nil {
+			st.assume(e.ts.Lt(v.Tm, fx.entry.alloc))
 		}
 	}
 	// immutable-after-init globals initialised by a composite literal have a known length / are non-nil
@@ -798,6 +808,15 @@ func (fx *fctx) loadGlobal(st *State, o *types.Var) *Value {
 		}
 	}
 	return v
+}
+
+// globalKey: the heap key of a package-level variable.  An unexported variable that no function assigns keeps its
+// initial value: its cell is immune to havoc (calls of unknown code, loop heads), like the immutable boxed copies.
+func (e *Engine) globalKey(o *types.Var) string {
+	if e.effects != nil && !e.effects.GlobalWritten[o] && !o.Exported() {
+		return "box.global." + globalName(o)
+	}
+	return "global." + globalName(o)
 }
 
 func globalName(o *types.Var) string {
